@@ -209,19 +209,3 @@ func ForeignStanzaLocal(c *Call) bool {
 	n := c.Expect.Name
 	return n.Space != "" && n.Space != NSClient && n.Space != NSServer && IsStanzaName(MName{Local: n.Local})
 }
-
-// NamespacedEmptyID reports the trigger class of a known quirk of the SendIQ /
-// SendMessage / SendPresence families (getIDTyp matches the id by local name
-// only): the stanza carries an attribute named id in some name space with an
-// empty value, which is overwritten with the generated id.
-func NamespacedEmptyID(c *Call) bool {
-	if c == nil || c.Kind != "sendx" || c.Expect == nil {
-		return false
-	}
-	for _, a := range c.Expect.Attrs {
-		if a.Name.Space != "" && a.Name.Local == "id" && a.Value == "" {
-			return true
-		}
-	}
-	return false
-}
